@@ -191,6 +191,10 @@ from . import casts
 
 from . import mustcall
 
+from . import vocab
+
+from . import timers
+
 OBLIGATIONS = [
     ('C04.O1', 'the gate', 'The new-frame step implies current - last_confirmed < max_prediction (current < max_prediction '
      'while nothing is confirmed). A stricter gate passes, a weaker one does not.', o1),
@@ -206,4 +210,6 @@ OBLIGATIONS = [
     ('C04.I', 'initial state', 'every constructor gives the fields this property\'s rules interpret (NULL_FRAME = none / nothing yet, 0 = first frame, latches open, typestate start) the value listed in tables/initial_state.json; every field compared with NULL_FRAME anywhere is listed; see rules/initial.py', initial.rule_for('C04')),
     ('C04.C', 'lossy integer casts', 'every sign-changing cast (signed -> unsigned; NULL_FRAME is -1) and every narrowing cast to < 32 bits or from 128 bits in the crate is in range by a dominating guard, by the shape of its operand, or listed with a reason in tables/casts.json; see rules/casts.py', casts.rule),
     ('C04.M', 'must-call floor', 'the calls listed for this property in tables/must_call.json are made on every path from the entry of their function to a normal return (interprocedural must-call): a new early return, fast path or extra condition in front of one of them is reported; see rules/mustcall.py', mustcall.rule_for('C04')),
+    ('C04.V', 'no unreviewed condition in the pinned helpers', 'for each helper whose body this property\'s rules pin (tables/condition_terms.json), the terms its path conditions are built from (fields, parameters, call results -- no constants, operators or local names) are a subset of the reviewed vocabulary: one more `if` in front of a pinned result (a lock that may time out, "only while an endpoint is running") is reported; see rules/vocab.py', vocab.rule_for('C04')),
+    ('C04.T', 'who counts as connected is decided by the timer table', 'the speculation bound is relative to the newest input of every player the session considers connected; a live peer that is wrongly timed out stops bounding it. Dependency, shared with C05.T / C12.T: timestamps are clock readings taken where the packet is handled, each timer has its own field, guard and re-arm site; see rules/timers.py', timers.rule),
 ]
